@@ -486,9 +486,12 @@ where
                     }
                 }
                 if let Ok(set) = self.input.streams().as_mut()
-                    && let Some((incoming, s)) = set.remove(&sid)
+                    && let Some((incoming, _)) = set.get(&sid)
                 {
+                    // on error the stream must stay registered, so that the connection
+                    // error about to be raised still reaches (and wakes) its reader
                     sync_fresh_data = incoming.recv_reset(reset)?;
+                    let (_incoming, s) = set.remove(&sid).expect("just looked up");
                     s.shutdown_receive();
                     if s.is_terminated() {
                         self.stream_ids.remote.on_end_of_stream(reset.stream_id());
